@@ -244,6 +244,27 @@ def clearAux : Nat → Graph → Option Term → Except Err Graph
 
 def clear (g : Graph) (h : Term) : Except Err Graph := clearAux (g.length + 2) g (some h)
 
+/-! ### `Collection.n3()` -/
+
+/-- `" ".join(ws)` -/
+def joinSp : List (List Char) → List Char
+  | [] => []
+  | w :: ws =>
+    match ws with
+    | [] => w
+    | _ :: _ => w ++ ' ' :: joinSp ws
+
+/-- `"( %s )" % " ".join(ws)` -/
+def n3Text (tok : Term → List Char) (xs : List Term) : List Char :=
+  '(' :: ' ' :: (joinSp (xs.map tok) ++ [' ', ')'])
+
+/-- `Collection.n3()`: `"( %s )" % (" ".join([i.n3() for i in self]))`; `tok` is the members' own `n3()`.
+    A member that is itself the head of a list is rendered by its own `n3()` (a blank-node label), not nested. -/
+def n3 (tok : Term → List Char) (g : Graph) (h : Term) : Except Err (List Char) :=
+  match iter g h with
+  | .ok xs => .ok (n3Text tok xs)
+  | .error e => .error e
+
 /-! ### The abstraction function: the list a chain denotes (strict walk) -/
 
 def asListAux (g : Graph) : Nat → Term → Except Err (List Term)
